@@ -58,6 +58,55 @@ def VEnv.get {α : Type} (r : VEnv α) (n : String) : Option (TVal α) :=
   | [] => none
   | (k, v) :: rest => if k == n then some v else VEnv.get rest n
 
+/-! ### well-kinded values, and the fragment the theorems of `Props/C19.lean` speak about -/
+section wellKinded
+variable {α : Type}
+
+def Prim.isScalar : Prim α → Bool
+  | .other _ => false
+  | _ => true
+
+/-- scalar kinds agree up to the numeric class (`Integer`, `PositiveInteger`, `Number` are one class) -/
+def scalarAgrees (pk k : Kind) : Bool :=
+  match kindClass pk, kindClass k with
+  | .number, .number | .boolean, .boolean | .string, .string => true
+  | _, _ => false
+
+mutual
+/-- the value inhabits the static kind: scalars up to the numeric class, arrays element by element
+(nothing inhabits `Any`, so the only value of kind `Iterable(Any)` is the empty array) -/
+def TVal.agrees : TVal α → Kind → Bool
+  | .scalar p, k => p.isScalar && scalarAgrees p.kind k
+  | .arr _ vs, k => match k with | .iter e => agreesList vs e | _ => false
+def agreesList : List (TVal α) → Kind → Bool
+  | [], _ => true
+  | v :: vs, k => v.agrees k && agreesList vs k
+end
+
+mutual
+/-- the fragment: every literal is well kinded (no mixed array literal `[1, "a"]` — those are the `Any`
+escape of known finding C19-any-escape), an array access has at least one index (grammar), and the only
+functions called are the ones `TE.eval` implements (`len`, `range`) -/
+def TE.wf : TE α → Bool
+  | .lit v => v.agrees v.kind
+  | .var _ => true
+  | .un _ e => e.wf
+  | .bin _ a b => a.wf && b.wf
+  | .access _ idx => !idx.isEmpty && wfList idx
+  | .call f args => (f == "len" || f == "range") && wfList args
+def wfList : List (TE α) → Bool
+  | [] => true
+  | e :: es => e.wf && wfList es
+end
+
+/-- the static context describes the run-time environment: same names, every value inhabits its kind -/
+def EnvAgrees (g : Ctx) (r : VEnv α) : Prop :=
+  ∀ n, match g.get n, r.get n with
+    | some k, some v => v.agrees k = true
+    | none, none => True
+    | _, _ => False
+end wellKinded
+
 /-- `RESERVED_TOKEN` (`check_if_reserved_token`): keywords, literals, `Graph`, block names, builtin functions -/
 def reservedNames : List String :=
   ["min", "max", "s.t.", "where", "in", "for", "as", "if", "else", "solve", "true", "false", "Graph",
@@ -138,6 +187,9 @@ def typeCheckLets : Ctx → List (String × TE α) → Except TErr Ctx
     else typeCheckLets ((n, e.typeOf g) :: g) rest
 end static
 
+/-- `MAX_RANGE_SIZE` (`NumericRange::call`: a larger range is the `TooLarge` error) -/
+def rangeCap : Int := 10000000
+
 /-! ### dynamic side -/
 section dynamic
 variable {α : Type} [Arith α] [ToU64 α]
@@ -205,7 +257,7 @@ def TE.eval (r : VEnv α) : TE α → Except TErr (TVal α)
       let hi ← intOf (← b.eval r)
       match (← c.eval r) with
       | .scalar (.boolean inc) =>
-        if (hi - lo + (if inc then 1 else 0)) > 10000000 then .error .other   -- TooLarge
+        if (hi - lo + (if inc then 1 else 0)) > rangeCap then .error .other   -- TooLarge
         else
           let pos := rangeIsPositive lo hi
           .ok (.arr (if pos then .pint else .integer)
